@@ -124,6 +124,10 @@ class Scenario:
         if mode in (1, 2):
             msg = rig.simple_response(200, b, hd)
             hl = msg.index(b"\r\n\r\n") + 4
+            if cut >= len(b):
+                # nothing would be left to send after the pause: squid sees a complete message and may reuse the idle connection
+                # for the request the pause is waiting for
+                return [("send", msg), ("set_event", held)]
             acts = [("send", msg[:hl + cut]), ("set_event", held), ("wait_event", go, 20)]
             acts += [("send", msg[hl + cut:])] if mode == 1 else [("close",)]
             return acts
@@ -241,14 +245,19 @@ class Scenario:
             th = threading.Thread(target=runner, args=(i, fn, op), daemon=True)
             threads[i] = th
             th.start()
-            if hold and target != i:
-                # "started" = it reached its pause (the origin sent the first part / the reader has the response head) or ended early
+            if (hold and target != i) or release_at:
+                # "started" = it reached its pause (the origin sent the first part / the reader has the response head) or ended.
+                # While an earlier operation is paused nothing may be awaited to its end: a reader of the in-flight entry ends only
+                # after the paused origin goes on.
                 self.h.origin.event(ev("held", i)).wait(timeout=20 * rig.VERIF_SLOW)
-                release_at.setdefault(target, []).append(ev("go", i))
+                if hold and target != i:
+                    release_at.setdefault(target, []).append(ev("go", i))
             else:
                 th.join(timeout=60 * rig.VERIF_SLOW)
             for g in release_at.pop(i, []):
                 self.h.origin.event(g).set()
+                # the overlap ends here: let the released operation run to its end before the next one starts
+                threads[int(g.rsplit("-", 1)[1])].join(timeout=20 * rig.VERIF_SLOW)
         for gs in release_at.values():
             for g in gs:
                 self.h.origin.event(g).set()
